@@ -16,6 +16,7 @@ type Spec struct {
 	TimeoutQuick int // per-child watchdog, seconds
 	TimeoutThor  int
 	Shapes       []string
+	Universe     int // number of clean enumerated shapes added to the portfolio
 	EvalCounter  string
 	Require      []string
 	RequireFn    func(r *Run) []string
@@ -56,21 +57,21 @@ var portfolioAll = []string{"p1", "p2", "p3", "p4", "p5", "p6", "p7", "p8", "p9"
 
 func init() {
 	addSpec(&Spec{ID: "C01", Title: "write-then-read returns exactly the records added", Level: "exploration",
-		Shapes: portfolioMain,
-		Rule: "cases = portfolio shapes x {structural enumeration, per-type extremes, random, run-structured, boundary-length lists, huge} x partitions x page sizes x 3 codecs, " +
+		Shapes: portfolioMain, Universe: 100,
+		Rule: "cases = (portfolio shapes + a fixed slice of 100 enumerated struct shapes without C05 finding, the latter with the structural enumeration only) x {structural enumeration, per-type extremes, random, run-structured, boundary-length lists, huge} x partitions x page sizes x 3 codecs, " +
 			"each written through the generated writer (records scrambled after Add) and read back; distinct = (shape, record-structure sequence, partition, page size, codec); " +
 			"non-trivial = the file (as parsed by the reference) has >= 2 pages in some chunk, or >= 2 row groups, or a list of >= 8 elements",
 		Require: []string{"codec_uncompressed", "codec_snappy", "codec_gzip", "multipage_bool_required_files", "multipage_bool_optional_files", "multipage_repeated_files"},
 	})
 	addSpec(&Spec{ID: "C02", Title: "every written file is structurally valid Parquet with a truthful footer", Level: "exploration",
-		Shapes: portfolioAll,
-		Rule: "cases as C01 on portfolio P1-P8; every file parsed by ref/pqfile and each sub-check (observed_counters check_*) evaluated; distinct = (shape, partition, page size, codec); " +
+		Shapes: portfolioAll, Universe: 100,
+		Rule: "cases as C01 on portfolio P1-P9 plus 100 enumerated struct shapes without C05 finding; every file parsed by ref/pqfile and each sub-check (observed_counters check_*) evaluated; distinct = (shape, partition, page size, codec); " +
 			"non-trivial = >= 2 row groups or >= 2 pages in a chunk",
 		Require: []string{"multi_rowgroup_compressed_files", "check_schema_matches_struct", "check_contiguous", "check_page_sections", "check_rg_total_byte_size"},
 	})
 	addSpec(&Spec{ID: "C03", Title: "column data is the canonical Dremel striping", Level: "exploration",
-		Shapes: portfolioAll,
-		Rule: "cases as C01; every column of every file decoded by the reference only and compared entry by entry with ref/dremel.Shred, then reassembled by ref/dremel.AssembleRecord; " +
+		Shapes: portfolioAll, Universe: 160,
+		Rule: "cases as C01 on portfolio P1-P9 plus 160 enumerated struct shapes without C05 finding; every column of every file decoded by the reference only and compared entry by entry with ref/dremel.Shred, then reassembled by ref/dremel.AssembleRecord; " +
 			"distinct = (shape, record structure signature); non-trivial = record has a nil optional, an empty list or a list of >= 2 elements",
 		Require: []string{"triples_compared", "records_assembled"},
 		RequireFn: func(r *Run) []string {
@@ -140,7 +141,8 @@ func init() {
 			"crc, optional and unknown thrift fields, long-form field headers, opaque bytes before the footer; each file re-validated by the reference parser, then read by the generated reader; " +
 			"distinct = hash of the choice vector; all files non-trivial (none is what the repository's writer would emit)",
 		Require: []string{"bitpacked_runs_over_63_groups", "run_header_bytes_2", "rle_runs_of_length_1", "streams_mixing_run_kinds", "mixed_codec_files", "files_with_per_column_page_splits",
-			"option_created_by", "option_key_value_metadata", "option_column_orders", "option_gap_before_footer", "option_unknown_footer_fields"},
+			"option_created_by", "option_key_value_metadata", "option_column_orders", "option_gap_before_footer", "option_unknown_footer_fields",
+			"pages_without_statistics", "pages_with_statistics_but_no_null_count", "pages_with_null_count", "multipage_optional_bool_chunks_without_null_count"},
 	})
 	addSpec(&Spec{ID: "C12", Title: "page statistics are sound bounds and exact null counts", Level: "exploration",
 		Shapes: []string{"p1", "p2", "p8"},
